@@ -218,10 +218,16 @@ def _worker(job):
     except SyntaxError as e:
         return dict(src=src, harness_error='generated module does not parse: %s' % e)
     path = os.path.join(tmp, 'xdverif_c07_m%d.py' % idx)
-    open(path, 'w').write(src)
-    with warnings.catch_warnings():
-        warnings.simplefilter('ignore')
-        calldefs = static_analysis.parse_static_calldefs(fpath=path)
+    # how the file is saved: plain UTF-8, with a byte-order mark (legal: editors on Windows write it), with CRLF line ends
+    saved = rng.choice(['plain', 'plain', 'plain', 'bom', 'crlf', 'bom+crlf'])
+    with open(path, 'w', encoding='utf-8-sig' if 'bom' in saved else 'utf-8', newline='\r\n' if 'crlf' in saved else None) as f:
+        f.write(src)
+    try:
+        with warnings.catch_warnings():
+            warnings.simplefilter('ignore')
+            calldefs = static_analysis.parse_static_calldefs(fpath=path)
+    except Exception as e:
+        return dict(src=src, collect_error='static collection of a module saved as %s raised %s: %s' % (saved, type(e).__name__, str(e)[:200]))
     impl = [(k, v.docstr) for k, v in calldefs.items()]
     # model request
     docs = []
@@ -399,6 +405,9 @@ def run(ctx):
                 nv['p'] += 1
                 ctx.violation('collection', {'what': '; '.join(r['problems'])[:1500], 'module_source': r['src'],
                               'theorem_or_correspondence': 'Visible transcription / by-construction examples on static collection'}, True)
+        for r in [r for r in results if 'collect_error' in r][:4]:
+            ctx.violation('collection', {'what': r['collect_error'], 'module_source': r['src'],
+                          'theorem_or_correspondence': 'static collection of a legal module file'}, True)
         bad = [r for r in results if 'harness_error' in r]
         ctx.count('generated modules that do not parse (skipped)', len(bad))
         package_cases(ctx, tmp)
